@@ -212,4 +212,32 @@ func init() {
 		}, mgrAssume...),
 		Outside: "other operation orders, taproot scripts, wtxmgr's namespace (public scripts are stored there once transactions are recorded), the wallet package's own buckets",
 	})
+	walletAssume := []string{
+		"a real Wallet (wallet.Open, real address manager and transaction store, migrations) over memdb; the database is created with fast scrypt parameters instead of wallet.Create's defaults; concrete seed, native crypto",
+		"the chain backend is a harness model (chain.Interface): best chain of (height, fork id) blocks with symbolic timestamps; its notifications follow btcd's order (disconnects tip-first, then connects)",
+	}
+	reg(&propDef{
+		ID: "C15",
+		Runs: []hrun{
+			{Pkg: walletPkg, Fn: "ZzC15L2", Tiers: "qt", Sched: true, Reach: []string{"c15-end", "reorg-1", "reorg-2", "duplicate-disconnect", "stale-disconnect", "wallet-tx-confirmed", "wallet-tx-unconfirmed-by-reorg"}, Bound: "real handleChainNotifications goroutine; base height 10001; 2 evolutions from {extend, extend with wallet tx, reorg depth 1, reorg depth 2, duplicate disconnect, stale disconnect}"},
+			{Pkg: walletPkg, Fn: "ZzC15Startup1", Tiers: "qt", Reach: []string{"c15-end", "wallet-tx-orphaned"}, Bound: "reorg of depth 1 while stopped (new branch same length or longer), wallet tx in any of 4 blocks, then syncWithChain"},
+			{Pkg: walletPkg, Fn: "ZzC15Startup2", Tiers: "qt", Reach: []string{"c15-end", "wallet-tx-orphaned"}, Bound: "depth 2 while stopped"},
+			{Pkg: walletPkg, Fn: "ZzC15Startup3", Tiers: "qt", Reach: []string{"c15-end", "wallet-tx-orphaned"}, Bound: "depth 3 while stopped"},
+			{Pkg: walletPkg, Fn: "ZzC15L3", Tiers: "t", Sched: true, Reach: []string{"c15-end"}, Bound: "3 evolutions, base 10001"},
+			{Pkg: walletPkg, Fn: "ZzC15L3Low", Tiers: "t", Sched: true, Reach: []string{"c15-end"}, Bound: "3 evolutions, base height 1"},
+			{Pkg: walletPkg, Fn: "ZzC15L4", Tiers: "t", Sched: true, Reach: []string{"c15-end"}, Bound: "4 evolutions"},
+		},
+		Assume:  append([]string{"in the start-up harness the wallet is already shutting down so that the rescan request after the rollback returns instead of waiting for the rescan goroutines"}, walletAssume...),
+		Outside: "reorgs deeper than 2 by notification / 3 at start-up, several wallet transactions, neutrino/bitcoind backends, rescan and recovery after the rollback",
+	})
+	reg(&propDef{
+		ID: "C20",
+		Runs: []hrun{
+			{Pkg: walletPkg, Fn: "ZzC20Publish", Tiers: "qt", Reach: []string{"c20-end", "recorded", "failed", "already-known"}, Bound: "funded wallet (one confirmed credit, symbolic amount); one send; backend answer from {accepted, already in mempool, already known, already confirmed, rejected, subscription failure}; balance compared for symbolic minconf 0..10"},
+			{Pkg: walletPkg, Fn: "ZzC20PublishChained", Tiers: "qt", Reach: []string{"c20-end", "chained", "failed"}, Bound: "same with an earlier unconfirmed send whose change is spent"},
+			{Pkg: walletPkg, Fn: "ZzC20Resend", Tiers: "qt", Reach: []string{"c20-end", "resent", "resend-rejected"}, Bound: "unconfirmed parent and child; resendUnminedTxs with acceptance or rejection of the parent"},
+		},
+		Assume:  append([]string{"transactions are built by the harness (unsigned): publishing does not verify signatures"}, walletAssume...),
+		Outside: "longer histories, several simultaneous unconfirmed chains, leases on the inputs, the real rpc error mapping of each backend (chain.MapRPCErr)",
+	})
 }
